@@ -147,9 +147,29 @@ def check_C(S, p):
                 fmt = "npy"
             args = [writer, "--precision", str(prec)] + (["-O", fmt] if writer == "view" else [])
             if transport == "file":
-                out = E.tmpfile(b"", ".out")
-                w = cli.sfs(args + ["-o", out], stdin=src)
-                produced = open(out, "rb").read()
+                # the output path may be new, empty, or hold an earlier (longer) result that must be replaced completely
+                pre = rng.choice(["empty", "absent", "longer-spectrum", "longer-garbage", "in-place"])
+                import os
+                stale = {"empty": b"", "absent": b"", "longer-spectrum": GS.text_spectrum(shape, vals, 17) + GS.text_spectrum(shape, vals, 17),
+                         "longer-garbage": bytes(rng.randrange(256) for _ in range(300)) * (2 + len(src) // 100), "in-place": src}[pre]
+                out = E.tmpfile(stale, ".out")
+                if pre == "absent":
+                    os.unlink(out)
+                if pre == "in-place":
+                    w = cli.sfs(args + ["-o", out, out])               # sfs view x.sfs -o x.sfs
+                else:
+                    w = cli.sfs(args + ["-o", out], stdin=src)
+                produced = open(out, "rb").read() if os.path.exists(out) else b""
+                S.observe("output_path_state", pre)
+                if pre == "in-place" and w.rc != 0:
+                    continue            # reading and writing one path in one invocation is not promised; if it succeeds the file must be right
+                ref = cli.sfs(args, stdin=src)
+                S.count("C_matrix_runs")
+                if w.rc == 0 and (ref.rc != 0 or ref.out != produced):
+                    S.viol("C07:file-vs-pipe", "[C %s -o FILE, path state %s] the file holds %d bytes %r..., the same command writes %d bytes to a pipe %r... (rc %s)" % (
+                        " ".join(args), pre, len(produced), produced[-60:], len(ref.out), ref.out[-60:], ref.rc),
+                        {"level": "C", "writer": w.argv, "path_state": pre, "input_b64": E.b64(src), "stale_b64": E.b64(stale[:4000]), "run": w.brief()})
+                    continue
             else:
                 w = cli.sfs(args, stdin=src)
                 produced = w.out
